@@ -10,6 +10,7 @@ glob enum <pat> <alphabet> <maxlen>   -> the same over all names of length ≤ m
                                          (by length, then in alphabet order), bits packed as hex
 glob spec <pat> <name>*               -> <wf|desc> <bits|->        the manual's meaning (Glob.spec)
 glob specenum <pat> <alphabet> <maxlen>
+glob lru <maxsize> (<name> <pat>)*    -> <answers 0/1/R/I> <hits> <misses> <currsize>   qnmatch through the lru_cache model
 privacy run (R <H|P|U> <pat>)* (Q <c|v|p> <obj>(;<obj>)*)*   -> <answer>* | <cache>
      obj = <fullName>/<name>/<m|o><n|k><e|s>   (module or other; kind None or known; entry of its parent's
      contents or superseded duplicate); a chain is
@@ -20,6 +21,8 @@ privacy world (V <value>)* W <obj>(;<obj>)* (A <c|v|p> <id>(,<id>)* | M <id>=<ob
                                       -> the same with object identities (index in W) and moves (reparent): M gives
                                          the new records of the objects whose qualified name / contents bit changed
 privacy parse <value>                 -> ok <LEVEL> <pat> | SystemExit | IndexError
+privacy effective (F <value>)* (V <value>)*  -> ok <LEVEL>=<pat>,… | ok - | SystemExit | IndexError
+                                         options.privacy for a config file holding the F values and a command line holding the V values
 ```
 strings are `u:` tokens (Proto). -/
 
@@ -78,6 +81,20 @@ def handleGlob (args : List String) : String :=
   | "spec" :: p :: ns =>
     match Proto.decodeStr p, ns.mapM Proto.decodeStr with
     | some pat, some names => specAnswer pat names bitsStr
+    | _, _ => "bad-op"
+  | "lru" :: m :: rest =>
+    let rec pairs : List String → Option (List (List Char × List Char))
+      | [] => some []
+      | [_] => none
+      | n :: p :: r => do
+        let n' ← Proto.decodeStr n; let p' ← Proto.decodeStr p; let t ← pairs r; pure ((n', p') :: t)
+    match m.toNat?, pairs rest with
+    | some maxsize, some qs =>
+      let (rs, c) := runLru maxsize Lru.empty qs
+      let shown := String.ofList (rs.map fun r => match r with
+        | .ok true => '1' | .ok false => '0' | .reError => 'R' | .indexError => 'I')
+      (if rs.isEmpty then "-" else shown) ++ " " ++ toString c.hits ++ " " ++ toString c.misses ++ " " ++
+        toString c.entries.length
     | _, _ => "bad-op"
   | [op, p, a, k] =>
     match Proto.decodeStr p, Proto.decodeStr a, k.toNat? with
@@ -210,6 +227,22 @@ def handlePrivacy (args : List String) : String :=
       | some ([], qs) =>
         match parseRules values with
         | .ok rules => answerRun rules qs
+        | .systemExit => "SystemExit"
+        | .indexError => "IndexError"
+      | _ => "bad-op"
+    | none => "bad-op"
+  | "effective" :: rest =>
+    let rec fvals : List String → List (List Char) → Option (List (List Char) × List String)
+      | "F" :: v :: r, acc => match Proto.decodeStr v with | some x => fvals r (x :: acc) | none => none
+      | r, acc => some (acc.reverse, r)
+    match fvals rest [] with
+    | some (cfg, rest') =>
+      match parseValues rest' [] with
+      | some (cli, []) =>
+        match parseEffective cli cfg with
+        | .ok rules =>
+          "ok " ++ (if rules.isEmpty then "-" else
+            ",".intercalate (rules.map fun r => showLevel r.level ++ "=" ++ Proto.encodeStr r.pat))
         | .systemExit => "SystemExit"
         | .indexError => "IndexError"
       | _ => "bad-op"
